@@ -252,9 +252,9 @@ fn gen_all(ctx: &Ctx, emit: &mut dyn FnMut(String)) {
         let mask = if rng.chance(1, 12) { rng.boundary_u64() } else { *rng.pick(MASKS) };
         let a = gen_value(&mut rng);
         match rng.below(10) {
-            0 => emit(format!("val {} {mask} {a}", rng.pick(UNARY))),
-            1 => emit(format!("val to_u64 {mask} {a}")),
-            2 => emit(format!("val {} {mask} {a} {}", rng.pick(&["convert", "reinterpret"]), rng.pick(TYPES).0)),
+            0 => emit(format!("val-op {} {mask} {a}", rng.pick(UNARY))),
+            1 => emit(format!("val-op to_u64 {mask} {a}")),
+            2 => emit(format!("val-op {} {mask} {a} {}", rng.pick(&["convert", "reinterpret"]), rng.pick(TYPES).0)),
             3..=6 => {
                 // same type operands (the interesting arithmetic)
                 let t = a.split(':').next().unwrap().to_string();
@@ -265,7 +265,7 @@ fn gen_all(ctx: &Ctx, emit: &mut dyn FnMut(String)) {
                     }
                     b = gen_value(&mut rng);
                 }
-                emit(format!("val {} {mask} {a} {b}", rng.pick(BINARY)));
+                emit(format!("val-op {} {mask} {a} {b}", rng.pick(BINARY)));
             }
             7 => {
                 // shifts by small / boundary counts of any integral type
@@ -274,9 +274,9 @@ fn gen_all(ctx: &Ctx, emit: &mut dyn FnMut(String)) {
                     1 => format!("{}:{}", rng.pick(&["u8", "i8", "u16", "i32", "u64", "i64"]), rng.below(70)),
                     _ => gen_value(&mut rng),
                 };
-                emit(format!("val {} {mask} {a} {cnt}", rng.pick(&["shl", "shr", "shra"])));
+                emit(format!("val-op {} {mask} {a} {cnt}", rng.pick(&["shl", "shr", "shra"])));
             }
-            _ => emit(format!("val {} {mask} {a} {}", rng.pick(BINARY), gen_value(&mut rng))),
+            _ => emit(format!("val-op {} {mask} {a} {}", rng.pick(BINARY), gen_value(&mut rng))),
         }
     }
     for (tn, _) in TYPES {
@@ -290,8 +290,8 @@ fn gen_all(ctx: &Ctx, emit: &mut dyn FnMut(String)) {
                     a = gen_value(&mut rng);
                 }
                 let mask = *rng.pick(MASKS);
-                emit(format!("val convert {mask} {a} {un}"));
-                emit(format!("val reinterpret {mask} {a} {un}"));
+                emit(format!("val-op convert {mask} {a} {un}"));
+                emit(format!("val-op reinterpret {mask} {a} {un}"));
             }
         }
         for mask in [0u64, 1, 0xff, 0xffff, 0xff_ffff, 0xffff_ffff, 1 << 63, u64::MAX, 0x8000] {
@@ -319,24 +319,24 @@ fn gen_all(ctx: &Ctx, emit: &mut dyn FnMut(String)) {
         let e = if asz == 2 { "be" } else { "le" };
         for len in 1..=(if thorough { 4 } else { 3 }) {
             for first in 0..nsym {
-                emit(format!("blk-eval {e} {asz} heap 16 {len} {first}"));
+                emit(format!("expr-blk {e} {asz} heap 16 {len} {first}"));
             }
         }
         // small storage and a tight iteration limit on the same space (length 2..3)
         for first in 0..nsym {
-            emit(format!("blk-eval {e} {asz} s2e1p1 3 3 {first}"));
-            emit(format!("blk-eval {e} {asz} s3e1p1 2 2 {first}"));
+            emit(format!("expr-blk {e} {asz} s2e1p1 3 3 {first}"));
+            emit(format!("expr-blk {e} {asz} s3e1p1 2 2 {first}"));
         }
     }
     // the alphabet programs of length <= 2 individually (localises a digest mismatch)
     for asz in [1u8, 4, 8] {
         let alpha = alphabet(asz);
         for x in &alpha {
-            emit(format!("eval le {asz} 32 4 heap - 4660 16 {} -", hex(x)));
+            emit(format!("expr-eval le {asz} 32 4 heap - 4660 16 {} -", hex(x)));
             for y in &alpha {
                 let mut p = x.clone();
                 p.extend(y);
-                emit(format!("eval le {asz} 32 4 heap - 4660 16 {} -", hex(&p)));
+                emit(format!("expr-eval le {asz} 32 4 heap - 4660 16 {} -", hex(&p)));
             }
         }
     }
@@ -355,7 +355,7 @@ fn gen_all(ctx: &Ctx, emit: &mut dyn FnMut(String)) {
     for p in &loop_progs {
         for mx in 0..=(if thorough { 64 } else { 24 }) {
             for st in ["heap", "s2e1p1", "s4e2p3"] {
-                emit(format!("eval le 4 32 4 {st} - - {mx} {} -", hex(p)));
+                emit(format!("expr-eval le 4 32 4 {st} - - {mx} {} -", hex(p)));
             }
         }
     }
@@ -363,13 +363,13 @@ fn gen_all(ctx: &Ctx, emit: &mut dyn FnMut(String)) {
     for k in 0..=9usize {
         for st in STORAGES {
             let mut p: Vec<u8> = (0..k).map(|i| 0x30 + i as u8).collect();
-            emit(format!("eval le 8 32 4 {st} - - 64 {} -", hex(&p)));
-            emit(format!("eval le 8 32 4 {st} 7 - 64 {} -", hex(&p)));
+            emit(format!("expr-eval le 8 32 4 {st} - - 64 {} -", hex(&p)));
+            emit(format!("expr-eval le 8 32 4 {st} 7 - 64 {} -", hex(&p)));
             p.extend([0x50, 0x93, 0x01, 0x51, 0x93, 0x01, 0x93, 0x02]);
-            emit(format!("eval le 8 32 4 {st} - - 64 {} -", hex(&p)));
+            emit(format!("expr-eval le 8 32 4 {st} - - 64 {} -", hex(&p)));
             // nested calls: call2 answered by an expression that calls again
             let calls = format!("generic:1/980100{:02x},generic:2/98020031,generic:3/32", 0x30 + k.min(9));
-            emit(format!("eval le 8 32 4 {st} - - 64 980000{} {calls}", hex(&[0x22])));
+            emit(format!("expr-eval le 8 32 4 {st} - - 64 980000{} {calls}", hex(&[0x22])));
         }
     }
     // random programs with loops, branches, requests and scripted answers
@@ -395,7 +395,7 @@ fn gen_all(ctx: &Ctx, emit: &mut dyn FnMut(String)) {
         let init = if rng.chance(1, 4) { Some(rng.boundary_u64()) } else { None };
         let obj = if rng.chance(1, 2) { Some(rng.boundary_u64()) } else { None };
         let st = if rng.chance(2, 3) { "heap" } else { *rng.pick(STORAGES) };
-        emit(format!("eval {} {st} {} {} {} {} {script}", enc_str(&c), opt_str(init), opt_str(obj), opt_str(mx), hex(&prog)));
+        emit(format!("expr-eval {} {st} {} {} {} {} {script}", enc_str(&c), opt_str(init), opt_str(obj), opt_str(mx), hex(&prog)));
     }
     // integer-only programs (the naive interpreter judges all of these), all four address sizes
     for _ in 0..ctx.n(20_000, 600_000) {
@@ -419,6 +419,6 @@ fn gen_all(ctx: &Ctx, emit: &mut dyn FnMut(String)) {
             prog.push(*rng.pick(&[0x9fu8, 0x50]));
         }
         let mx = rng.below(60);
-        emit(format!("eval {} heap - {} {mx} {} -", enc_str(&c), opt_str(if rng.chance(1, 2) { Some(rng.boundary_u64()) } else { None }), hex(&prog)));
+        emit(format!("expr-eval {} heap - {} {mx} {} -", enc_str(&c), opt_str(if rng.chance(1, 2) { Some(rng.boundary_u64()) } else { None }), hex(&prog)));
     }
 }
